@@ -156,7 +156,7 @@ class MPath:
         import types
         return types.SimpleNamespace(st_mtime=self.fs.files[self.name].mtime, st_size=len(self.fs.files[self.name].text))
 
-    def open(self, mode="r"):
+    def open(self, mode="r", buffering=-1, encoding=None, errors=None, newline=None):
         self.fs.op("open")
         if self.fs.dead:
             return Handle(self.fs, self.name)
@@ -371,6 +371,170 @@ def stale_or_missing_is_rebuilt(tf: int, a: int, b: int, kind_fai: int, kind_agp
     return FIN(AND(ok, IFF(changed, NOT(fresh))))
 
 
+class ScriptFS(MFS):
+    """records the file-system operations one process performs (its 'script')"""
+
+    def __init__(self, clock, ticks):
+        MFS.__init__(self, clock, ticks)
+        self.script = []
+
+
+def record_script(pid, has_fai, has_agp):
+    """the sequence of file operations the REAL run_indexing performs, recorded from
+    a solo run in a process with the given pid (the temporary names may depend on it).
+    The sequence does not depend on what the process reads (results of exists() only
+    select log messages), so it can be re-applied under any interleaving."""
+    import tola.fasta.index as ixm
+    fs = setup(1000, 1, 2, has_fai, has_agp, [1])
+    script = []
+    orig = {}
+
+    def wrap(cls, meth, kind):
+        f = getattr(cls, meth)
+        orig[(cls, meth)] = f
+
+        def g(self, *a, **k):
+            if kind == "write":
+                script.append(("write", id(self), a[0]))
+            elif kind == "close":
+                if not self.closed:
+                    script.append(("close", id(self)))
+            elif kind == "open":
+                mode = a[0] if a else k.get("mode", "r")
+                r = f(self, *a, **k)
+                script.append(("open", self.name, mode, id(r)))
+                return r
+            elif kind == "replace":
+                script.append(("replace", self.name, a[0].name))
+            elif kind == "unlink":
+                script.append(("unlink", self.name))
+            elif kind in ("exists", "stat"):
+                script.append((kind, self.name))
+            return f(self, *a, **k)
+        setattr(cls, meth, g)
+
+    for cls, meth, kind in ((Handle, "write", "write"), (Handle, "close", "close"), (MPath, "open", "open"), (MPath, "replace", "replace"),
+                            (MPath, "unlink", "unlink"), (MPath, "exists", "exists"), (MPath, "stat", "stat")):
+        wrap(cls, meth, kind)
+    had_os = hasattr(ixm, "os")
+    real_getpid = ixm.os.getpid if had_os else None
+    if had_os:
+        class _OS:
+            def __getattr__(self, n):
+                import os as _o
+                return getattr(_o, n)
+
+            def getpid(self):
+                return pid
+        ixm.os = _OS()
+    try:
+        fi = mkindex(fs)
+        fi.run_indexing()
+    finally:
+        for (cls, meth), f in orig.items():
+            setattr(cls, meth, f)
+        if had_os:
+            import os as _o
+            ixm.os = _o
+    return script
+
+
+class Proc:
+    """one writer process replaying its script against the SHARED file system"""
+
+    def __init__(self, fs, script):
+        self.fs, self.script, self.pc = fs, script, 0
+        self.handles = {}
+        self.failed = None
+
+    def done(self):
+        return self.pc >= len(self.script) or self.failed is not None
+
+    def step(self):
+        op = self.script[self.pc]
+        self.pc += 1
+        fs = self.fs
+        try:
+            if op[0] == "open":
+                _, name, mode, hid = op
+                if "w" in mode:
+                    if name not in fs.files:
+                        fs.files[name] = Inode("", fs.clock)
+                    ino = fs.files[name]
+                    fs.persist(ino, "")
+                    self.handles[hid] = [ino, []]
+            elif op[0] == "write":
+                self.handles[op[1]][1].append(op[2])
+            elif op[0] == "close":
+                ino, buf = self.handles.pop(op[1])
+                fs.persist(ino, "".join(buf))
+            elif op[0] == "replace":
+                if op[1] not in fs.files:
+                    raise FileNotFoundError(op[1])
+                fs.files[op[2]] = fs.files.pop(op[1])
+            elif op[0] == "unlink":
+                fs.files.pop(op[1], None)
+        except Exception as e:
+            self.failed = e          # this process dies loudly; what it did so far stays
+
+    def flush_some(self, choice):
+        """while suspended, buffered data of open files may have reached the disk up to a boundary"""
+        for ino, buf in self.handles.values():
+            data = "".join(buf)
+            pts = [0, len(data) // 2, len(data)]
+            fs_text = data[:pts[choice]]
+            if len(fs_text) > len(ino.text):
+                self.fs.persist(ino, fs_text)
+
+
+SCRIPTS = {(a, b): (native(record_script, 111, a, b), native(record_script, 222, a, b)) for a in (False, True) for b in (False, True)}
+NSCRIPT = max(len(x[0]) for x in SCRIPTS.values())
+
+
+def two_writers(has_fai, has_agp, a1, b1, a2, rp, fl):
+    """two processes indexing the same FASTA at once (bounded preemptions: A runs a1
+    operations, B runs b1, A runs a2 more, B finishes, A finishes) and a third process
+    that auto-loads after one of these five segments"""
+    START()
+    key = (True if has_fai else False, True if has_agp else False)
+    sa, sb = SCRIPTS[key]
+    fs = setup(1000, 1, 2, key[0], key[1], [1])
+    # preemptions happen between EVENTS (an operation that changes what other processes can
+    # see: open-truncate, close, replace, unlink); buffered writes belong to the following
+    # close and may be partially flushed while the process is suspended
+    ea = [i for i, op in enumerate(sa) if op[0] in ("open", "close", "replace", "unlink")]
+    eb = [i for i, op in enumerate(sb) if op[0] in ("open", "close", "replace", "unlink")]
+    n1, n2 = pick(a1, len(ea) + 1), pick(b1, len(eb) + 1)
+    n3 = [0, 1, 2, len(ea)][pick(a2, 4)]
+    when = pick(rp, 5)
+    flc = pick(fl, 3)
+
+    def body():
+        A, B = Proc(fs, sa), Proc(fs, sb)
+        segs = [(A, ea, n1), (B, eb, n2), (A, ea, n3), (B, eb, len(eb)), (A, ea, len(ea))]
+        ok = True
+        for i, (P, ev, n) in enumerate(segs):
+            k = 0
+            while k < n and not P.done():
+                nxt = [j for j in ev if j >= P.pc]
+                stop = (nxt[0] + 1) if nxt else len(P.script)
+                while P.pc < stop and not P.done():
+                    P.step()
+                k += 1
+            if n >= len(ev):
+                while not P.done():
+                    P.step()
+            if not P.done():
+                P.flush_some(flc)
+            if i == when:
+                snap = MFS(fs.clock, [1])
+                snap.files = {nm: Inode(ino.text, ino.mtime) for nm, ino in fs.files.items()}
+                ok = ok and load_ok(snap)
+        return ok
+    # every symbolic choice has been realised above: the simulation itself runs natively
+    return FIN(native(body))
+
+
 def visible_states(has_fai, has_agp):
     """every state of (.fai, .agp) that a concurrent reader can observe while ONE
     other process runs the real run_indexing on the same FASTA: the writer is
@@ -496,6 +660,22 @@ def crash_{int(hf)}{int(ha)}{int(df)}{int(da)}(tf: int, o1: int, o2: int, t0: in
 
 
 
+def _mk_two_writer_variants():
+    src = ""
+    for a in (0, 1):
+        for b in (0, 1):
+            src += f'''
+
+def two_writers_{a}{b}(a1: int, b1: int, a2: int, rp: int, fl: int) -> bool:
+    """
+    pre: 0 <= a1 <= 20 and 0 <= b1 <= 20 and 0 <= a2 <= 3 and 0 <= rp <= 4 and 0 <= fl <= 2
+    post: _
+    """
+    return two_writers({bool(a)}, {bool(b)}, a1, b1, a2, rp, fl)
+'''
+    return src
+
+
 ENC = ("FastaIndex.auto_load", "FastaIndex.check_for_index_files", "FastaIndex.load_index", "FastaIndex.load_assembly", "FastaIndex.run_indexing",
        "FastaIndex.write_index", "FastaIndex.write_assembly", "FastaIndex.atomic_writer", "index.index_fasta_file", "parser.parse_agp", "format.format_agp", "FastaInfo.fai_row")
 ENV = {"VERIF_LOADER_OPTS": "notokens"}
@@ -504,7 +684,7 @@ ENV = {"VERIF_LOADER_OPTS": "notokens"}
 def conditions(tier):
     global HEAD
     if "def crash_0000" not in HEAD:
-        HEAD = HEAD + _mk_crash_variants()
+        HEAD = HEAD + _mk_crash_variants() + _mk_two_writer_variants()
     out = [
         Cond(f"crash_at_any_operation_then_fresh_load_{k}", HEAD, f"crash_{k}", 1200,
              f"old .fai/.agp present = {k[0]}/{k[1]}, deleted after the interrupted run = {k[2]}/{k[3]}; "
@@ -525,6 +705,12 @@ def conditions(tier):
              "every interleaving at file-operation granularity, no preemption bound",
              env=ENV, encodes=ENC) for a in (0, 1) for b in (0, 1)
     ] + [
+    ] + [
+        Cond(f"two_racing_indexing_runs_and_a_reader_old_fai{a}_old_agp{b}", HEAD, f"two_writers_{a}{b}", 6000,
+             f"stale .fai {'present' if a else 'absent'}, stale .agp {'present' if b else 'absent'}: TWO processes (distinct pids) run the real run_indexing's recorded file-operation scripts against one shared inode file system "
+             "with bounded preemptions at visible events (A runs a1 events, B b1, A 0/1/2/all more, B to its end, A to its end; symbolic), buffered data flushed none/half/all while suspended; a third process auto-loads (real code) after any one of the five segments",
+             tier="quick" if (a, b) == (0, 0) else "thorough", env=ENV, encodes=ENC) for a in (0, 1) for b in (0, 1)
+    ] + [
         Cond("two_interrupted_runs_then_fresh_load", HEAD, "two_crashes_then_load", 6000,
              "as the first condition with TWO consecutive interrupted runs (deletions after the first) before the fresh auto-load", tier="thorough", env=ENV, encodes=ENC),
     ]
@@ -533,7 +719,8 @@ def conditions(tier):
 
 BOUNDS = ["two FASTA versions (2 records each, fixed content); histories: index v1 -> delete subset -> rewrite -> 1 (quick) or 2 (thorough) interrupted runs at any file operation -> delete subset -> fresh load",
           "concurrency: 1 reader vs 1 writer, 2 preemption points + initial progress; clock ticks symbolic"]
-OUTSIDE = ["two SIMULTANEOUS writers on the same files (the third process of the 3-process case): byte-level semantics of overlapping truncate/write are not modelled; a reader that decides to rebuild is not followed further",
+OUTSIDE = ["more than two simultaneous writers; more than two preemptions between two writers; a reader that decides to rebuild while writers are active is not followed further",
+           "the two-writer condition replays each writer's file-operation script recorded from a solo run of the real code (the script does not depend on what the writer reads), it does not re-execute the writers' Python code under the interleaving",
            "the FASTA file being rewritten WHILE a run reads it (the property's histories are sequential)", "file-system reordering after power loss (the property says completed writes persist)",
            "a reader holding an open cache file while it is truncated in place (reads are atomic at open in the model)",
            "partial flushes are taken at representative boundaries (nothing, every line boundary, mid-text, 3 bytes short, all), not at every byte"]
